@@ -227,3 +227,262 @@ func TestNormalizeIdentityWithoutTypes(t *testing.T) {
 		t.Errorf("a package that does not type-check must be left alone: %s", got)
 	}
 }
+
+// ---- rules added for the second set of harmless refactorings (R17 … R32)
+
+func TestNormalizeRules2(t *testing.T) {
+	cases := []normCase{
+		// ---- negated ordered comparison
+		{"not-leq on ints", `func f(a, b int) bool { return !(a <= b) }`, `return a > b`, `!`},
+		{"not-less on len", `func f(xs []int) bool { return !(len(xs) < 2) }`, `return len(xs) >= 2`, `!`},
+		{"not-leq on floats kept (NaN)", `func f(a, b float64) bool { return !(a <= b) }`, `!(a <= b)`, `a > b`},
+		{"not-less on strings kept", `func f(a, b string) bool { return !(a < b) }`, `!(a < b)`, `>=`},
+		// ---- else after a jump
+		{"else after return", `var g int
+func f(c bool) int { if c { return 1 } else { g = 2 }; g++; return g }`, `if c { return 1 } g = 2 g++`, `else`},
+		{"else after return: declaration would capture kept", `var x = 1
+func f(c bool) int { if c { return 0 } else { x := 2; _ = x }; return x }`, `} else {`, ``},
+		{"else after a function called panic kept", `func panic(s string) {}
+var g int
+func f(c bool) { for { if c { panic("x") } else { g = 2 }; g = 3 } }`, `} else {`, ``},
+		{"else after return: init kept", `var g int
+func h() bool
+func f() int { if c := h(); c { return 1 } else { g = 2 }; return g }`, `} else {`, ``},
+		// ---- element local
+		{"elem local", `type C struct{ a map[string]int; b bool }
+type P struct{ a map[string]int; b bool; z int }
+func f(cs []C, p *P) { if len(cs) > 0 { v := cs[0]; p.a = v.a; p.b = v.b } }`, `p.a = cs[0].a p.b = cs[0].b`, `v :=`},
+		{"elem local: destination may be the element itself kept", `type C struct{ a, b int }
+func f(cs []C, p *C) { if len(cs) > 0 { v := cs[0]; p.a = v.b; p.b = v.a } }`, `v := cs[0]`, `cs[0].a`},
+		{"elem local: call in between kept", `type C struct{ a, b int }
+type P struct{ a, b, z int }
+func h()
+func f(cs []C, p *P) { if len(cs) > 0 { v := cs[0]; h(); p.a = v.a } }`, `v := cs[0]`, `cs[0].a`},
+		{"elem local: unguarded kept", `type C struct{ a, b int }
+type P struct{ a, b, z int }
+func f(cs []C, p *P) { v := cs[0]; p.a = v.a }`, `v := cs[0]`, `cs[0].a`},
+		{"elem local: struct-typed field kept", `type I struct{ n int }
+type C struct{ a I }
+type P struct{ a I; z int }
+func f(cs []C, p *P) { if len(cs) > 0 { v := cs[0]; p.a = v.a } }`, `v := cs[0]`, `cs[0].a`},
+		// ---- header alias
+		{"header alias", `func f(p *[]string, m map[string]int, n int) { keys := (*p)[:n]; *p = keys; i := 0; for k := range m { keys[i] = k; i++ } }`,
+			`*p = (*p)[:n] var i int for k := range m { (*p)[i] = k`, `keys`},
+		{"header alias: stored back later kept (a panic in between would show)", `func f(p *[]string, m map[string]int, n int) { keys := (*p)[:n]; i := 0; for k := range m { keys[i] = k; i++ }; *p = keys }`,
+			`keys := (*p)[:n]`, ``},
+		{"header alias: store of a header through another pointer kept", `func f(p, q *[]string, n int) { keys := (*p)[:n]; *p = keys; *q = nil; keys[0] = "x" }`, `keys[0] = "x"`, ``},
+		{"header alias: call in between kept", `func h()
+func f(p *[]string, n int) { keys := (*p)[:n]; *p = keys; h(); keys[0] = "x" }`, `keys[0] = "x"`, ``},
+		{"header alias: pointer reassigned kept", `func f(p, q *[]string, n int) { keys := (*p)[:n]; *p = keys; p = q; keys[0] = "x" }`, `keys[0] = "x"`, ``},
+		// ---- alias read
+		{"alias read", `type B struct{ result []interface{} }
+type N interface{ vg() bool }
+type T struct{ v bool }
+func (t *T) vg() bool { return t.v }
+func f(b *B, n N) int { r := b.result; if !n.vg() { if a, ok := r[0].([]interface{}); ok { r = a } }; return len(r) }`,
+			`a, ok := b.result[0].([]interface{}); ok { r = a } } return len(r)`, ``},
+		{"alias read: method with an effect kept", `type B struct{ result []interface{} }
+type N interface{ vg() bool }
+type T struct{ v bool; b *B }
+func (t *T) vg() bool { t.b.result = nil; return t.v }
+func f(b *B, n N) int { r := b.result; if !n.vg() { if a, ok := r[0].([]interface{}); ok { r = a } }; return len(r) }`, `a, ok := r[0].([]interface{})`, `b.result[0]`},
+		{"alias read: field stored in between kept", `type B struct{ result []interface{} }
+func f(b *B) interface{} { r := b.result; b.result = nil; x := r[0]; r = nil; _ = r; return x }`, `x := r[0]`, `b.result[0]`},
+		{"alias read: after the reassignment kept", `type B struct{ result []interface{} }
+func f(b *B, c bool) interface{} { r := b.result; if c { r = nil }; return r[0] }`, `return r[0]`, `b.result[0]`},
+		{"alias read: scalar kept", `type B struct{ n int }
+func f(b *B) int { i := b.n; if i < 0 { i += 10 }; return i }`, `if i < 0`, `b.n <`},
+		// ---- same-file helpers: duplicate name of an argument, different result type
+		{"inline: struct result into interface result", `type E struct{ k int }
+func (E) Error() string { return "" }
+func mk(k int) E { return E{k: k} }
+func run(k int) error { if k > 0 { return mk(k) }; return nil }`, `return E{k: k}`, `mk`},
+		{"inline: typed nil pointer into interface result kept", `type E struct{}
+func (*E) Error() string { return "" }
+func mk(k int) *E { return nil }
+func run(k int) error { if k > 0 { return mk(k) }; return nil }`, `return mk(k)`, ``},
+		{"inline: constant into interface result kept", `func mk(k int) int64 { return 1 }
+func run(k int) interface{} { if k > 0 { return mk(k) }; return nil }`, `return mk(k)`, ``},
+	}
+	for _, tc := range cases {
+		got := normTestRun(t, "x.go", "package p\n"+tc.src+"\n", normProfile{})
+		if tc.want != "" && !strings.Contains(got, tc.want) {
+			t.Errorf("%s: want %q in\n  %s", tc.name, tc.want, got)
+		}
+		if tc.not != "" && strings.Contains(got, tc.not) {
+			t.Errorf("%s: do not want %q in\n  %s", tc.name, tc.not, got)
+		}
+	}
+}
+
+func TestNormalizeFwdLocal(t *testing.T) {
+	head := "package p\nimport \"fmt\"\ntype N struct{ text string }\ntype E struct{ node *N; k string }\nfunc g() string\n"
+	pos := head + "func (e E) Error() string { path := e.node.text; return fmt.Sprintf(\"a %s %s\", e.k, path) }\n"
+	if got := normTestRun(t, "x.go", pos, normProfile{}); !strings.Contains(got, `return fmt.Sprintf("a %s %s", e.k, e.node.text)`) || strings.Contains(got, "path") {
+		t.Errorf("single-use local not forwarded: %s", got)
+	}
+	// evil twins: a call among the operands (it could change e.node.text), a second use, an index
+	for name, body := range map[string]string{
+		"call among operands": "path := e.node.text; return fmt.Sprintf(\"%s %s\", g(), path)",
+		"used twice":          "path := e.node.text; return fmt.Sprintf(\"%s %s\", path, path)",
+		"index operand":       "path := e.node.text; return fmt.Sprintf(\"%s %s\", e.k[1:], path)",
+		"not adjacent":        "path := e.node.text; e.node = nil; return fmt.Sprintf(\"%s\", path)",
+	} {
+		got := normTestRun(t, "x.go", head+"func (e E) Error() string { "+body+" }\n", normProfile{})
+		if !strings.Contains(got, "path := e.node.text") {
+			t.Errorf("%s: the local must be kept: %s", name, got)
+		}
+	}
+}
+
+func TestNormalizeFileDirections(t *testing.T) {
+	loop := "package p\nvar g int\nfunc f(xs []interface{}) { for _, x := range xs { if s, ok := x.(string); ok { g += len(s) } else { g-- } } }\n"
+	if got := normTestRun(t, "x.go", loop, normProfile{loopElseContinue: true}); !strings.Contains(got, "if s, ok := x.(string); ok { g += len(s) continue } g--") {
+		t.Errorf("loopElseContinue: %s", got)
+	}
+	if got := normTestRun(t, "jsonpath_parser.go", loop, normProfile{}); !strings.Contains(got, "continue } g--") {
+		t.Errorf("loopElseContinue is the direction of jsonpath_parser.go: %s", got)
+	}
+	if got := normTestRun(t, "x.go", loop, normProfile{}); !strings.Contains(got, "} else { g-- }") {
+		t.Errorf("loopElseContinue applied without the profile: %s", got)
+	}
+	// evil twin: the else block uses a variable of the init statement
+	evil := "package p\nvar g int\nfunc f(xs []interface{}) { for _, x := range xs { if s, ok := x.(string); ok { g += len(s) } else { g -= len(s) } } }\n"
+	if got := normTestRun(t, "x.go", evil, normProfile{loopElseContinue: true}); !strings.Contains(got, "} else { g -= len(s) }") {
+		t.Errorf("else block that needs the init scope was moved out: %s", got)
+	}
+	// evil twin: the name declared in the else block is also declared elsewhere in the function
+	evil2 := "package p\nvar g int\nfunc f(xs []interface{}) { for _, x := range xs { if s, ok := x.(string); ok { g += len(s) } else { n := 1; g -= n } }; n := 2; g += n }\n"
+	if got := normTestRun(t, "x.go", evil2, normProfile{loopElseContinue: true}); !strings.Contains(got, "} else { n := 1") {
+		t.Errorf("else block with a clashing declaration was moved out: %s", got)
+	}
+	eq := "package p\nfunc f(p *int) int { x := 1; if p != nil { x = 2 } else { x = 3 }; return x }\n"
+	if got := normTestRun(t, "x.go", eq, normProfile{eqFirst: true}); !strings.Contains(got, "if p == nil { x = 3 } else { x = 2 }") {
+		t.Errorf("eqFirst: %s", got)
+	}
+	if got := normTestRun(t, "jsonpath.go", eq, normProfile{}); !strings.Contains(got, "if p == nil { x = 3 } else { x = 2 }") {
+		t.Errorf("eqFirst is the direction of jsonpath.go: %s", got)
+	}
+	if got := normTestRun(t, "x.go", eq, normProfile{}); !strings.Contains(got, "if p != nil { x = 2 } else { x = 3 }") {
+		t.Errorf("eqFirst applied without the profile: %s", got)
+	}
+	// `<` is not `!=`: never flipped
+	lt := "package p\nfunc f(a, b float64) int { x := 1; if a < b { x = 2 } else { x = 3 }; return x }\n"
+	if got := normTestRun(t, "x.go", lt, normProfile{eqFirst: true}); !strings.Contains(got, "if a < b { x = 2 } else { x = 3 }") {
+		t.Errorf("eqFirst touched an ordered comparison: %s", got)
+	}
+}
+
+// normTestRunFiles normalises file `target` of a package made of several files.
+func normTestRunFiles(t *testing.T, files map[string]string, target string) string {
+	t.Helper()
+	dir := t.TempDir()
+	for n, src := range files {
+		if err := os.WriteFile(filepath.Join(dir, n), []byte("package p\n"+src+"\n"), 0o644); err != nil {
+			t.Fatal(err)
+		}
+	}
+	fset := token.NewFileSet()
+	f, err := parser.ParseFile(fset, filepath.Join(dir, target), nil, parser.SkipObjectResolution)
+	if err != nil {
+		t.Fatal(err)
+	}
+	if p := normLoad(dir); !p.ok {
+		t.Fatalf("test package does not type-check: %v", files)
+	}
+	normalizeFile(fset, f)
+	setPos(f, token.Pos(1))
+	return (&normCtx{}).str(f)
+}
+
+func TestNormalizeInlineAcrossFiles(t *testing.T) {
+	types := `type Base struct{ rt *int }
+type Err struct{ rt *int; err error }
+func (Err) Error() string { return "" }
+type F struct{ *Base }
+type G struct{ *Base }
+func (i *Base) get() *int { return i.rt }
+`
+	fRun := "func (f *F) run(err error) error { if err != nil { return f.mk(err) }; return nil }\n"
+	gRun := "func (g *G) run(err error) error { if err := g.chk(); err != nil { return err }; if err != nil { return g.mk(err) }; return nil }\nfunc (g *G) chk() error { return nil }\n"
+	mk := "func (i *Base) mk(err error) Err { return Err{rt: i.rt, err: err} }\n"
+	files := map[string]string{"t.go": types, "a.go": mk + fRun, "b.go": gRun}
+	if got := normTestRunFiles(t, files, "a.go"); !strings.Contains(got, "return Err{rt: f.rt, err: err}") || strings.Contains(got, "mk") {
+		t.Errorf("a.go: promoted helper not inlined / not dropped: %s", got)
+	}
+	if got := normTestRunFiles(t, files, "b.go"); !strings.Contains(got, "return Err{rt: g.rt, err: err}") || strings.Contains(got, "mk") {
+		t.Errorf("b.go: helper of another file not inlined: %s", got)
+	}
+	evil := map[string]string{
+		// a nil f panics at the call (f.Base is evaluated); without a use of the receiver the inlined body would not
+		"receiver unused": "func (i *Base) mk(err error) Err { return Err{err: err} }\n",
+		// a call in the body could change f.Base between the call and the use
+		"call in body": "func (i *Base) mk(err error) Err { return Err{rt: i.get(), err: err} }\n",
+		// more than a single return
+		"two statements": "func (i *Base) mk(err error) Err { e := Err{rt: i.rt, err: err}; return e }\n",
+	}
+	for name, h := range evil {
+		files := map[string]string{"t.go": types, "a.go": h + fRun, "b.go": gRun}
+		for _, target := range []string{"a.go", "b.go"} {
+			if got := normTestRunFiles(t, files, target); !strings.Contains(got, ".mk(err)") {
+				t.Errorf("%s (%s): the call must be kept: %s", name, target, got)
+			}
+		}
+	}
+	// one use that cannot be inlined (a method value) keeps every call
+	files = map[string]string{"t.go": types, "a.go": mk + fRun + "var keep = (*Base).mk\n", "b.go": gRun}
+	if got := normTestRunFiles(t, files, "b.go"); !strings.Contains(got, "g.mk(err)") {
+		t.Errorf("helper with a non-call use inlined: %s", got)
+	}
+	// a helper none of whose callers shares its file is the library's own structure: kept
+	files = map[string]string{"t.go": types + mk, "a.go": fRun, "b.go": gRun}
+	if got := normTestRunFiles(t, files, "a.go"); !strings.Contains(got, "f.mk(err)") {
+		t.Errorf("helper declared away from all its callers inlined: %s", got)
+	}
+}
+
+func TestErrTextsAcceptedForms(t *testing.T) {
+	run := func(src string) (string, error) {
+		dir, out := t.TempDir(), t.TempDir()
+		if err := os.WriteFile(filepath.Join(dir, "error_x.go"), []byte("package p\n"+src+"\n"), 0o644); err != nil {
+			t.Fatal(err)
+		}
+		if err := genErrTexts(dir, out); err != nil {
+			return "", err
+		}
+		data, err := os.ReadFile(filepath.Join(out, "ErrTexts.lean"))
+		return string(data), err
+	}
+	decl := "type nd struct{ text string }\ntype ErrorX struct { node *nd; k string }\n"
+	want := `("ErrorX", ["node *nd", "k string"], "x (k=%s, path=%s)", ["e.k", "e.node.text"])`
+	for name, body := range map[string]string{
+		"sprintf":  "import \"fmt\"\n" + decl + "func (e ErrorX) Error() string { return fmt.Sprintf(`x (k=%s, path=%s)`, e.k, e.node.text) }",
+		"constant": "import \"fmt\"\nconst fm = `x (k=%s, ` + `path=%s)`\n" + decl + "func (e ErrorX) Error() string { return fmt.Sprintf(fm, e.k, e.node.text) }",
+		"local":    "import \"fmt\"\n" + decl + "func (e ErrorX) Error() string { path := e.node.text; return fmt.Sprintf(`x (k=%s, path=%s)`, e.k, path) }",
+		"concat":   decl + "func (e ErrorX) Error() string { return `x (k=` + e.k + `, path=` + e.node.text + `)` }",
+	} {
+		got, err := run(body)
+		if err != nil || !strings.Contains(got, want) {
+			t.Errorf("%s: want %s, got %v\n%s", name, want, err, got)
+		}
+	}
+	// evil twins: must be refused
+	for name, body := range map[string]string{
+		"format in a variable": "import \"fmt\"\nvar fm = `x (k=%s, path=%s)`\n" + decl + "func (e ErrorX) Error() string { return fmt.Sprintf(fm, e.k, e.node.text) }",
+		"percent in a literal": decl + "func (e ErrorX) Error() string { return `x 100% (k=` + e.k + `)` }",
+		"call operand":         decl + "func (e ErrorX) name() string { return e.k }\nfunc (e ErrorX) Error() string { return `x (k=` + e.name() + `)` }",
+		"swapped operands":     "",
+	} {
+		if body == "" {
+			// a different message must give different data
+			got, err := run(decl + "func (e ErrorX) Error() string { return `x (k=` + e.node.text + `, path=` + e.k + `)` }")
+			if err != nil || strings.Contains(got, want) {
+				t.Errorf("%s: swapped operands gave the same data: %v\n%s", name, err, got)
+			}
+			continue
+		}
+		if got, err := run(body); err == nil {
+			t.Errorf("%s: accepted:\n%s", name, got)
+		}
+	}
+}
